@@ -246,11 +246,14 @@ func init() {
 	}
 }
 
+// c01CtxDiv: the quick tier takes a seed-rotated half of the context x byte space, the thorough tier all of it.
+const c01CtxDiv = 2
+
 func c01CtxCases(p core.Params) int {
 	if p.Thorough() {
 		return gen.CtxBytesCount()
 	}
-	return (gen.CtxBytesCount() + 7) / 8
+	return (gen.CtxBytesCount() + c01CtxDiv - 1) / c01CtxDiv
 }
 
 func c01Versions(r *core.Rand) []string {
@@ -399,10 +402,10 @@ func init() {
 			}
 			idx -= len(cor)
 			if n := c01CtxCases(c.P); idx < n {
-				// the context x byte space: complete in the thorough tier, a seed-rotated 1/8 slice in quick
+				// the context x byte space: complete in the thorough tier, a seed-rotated half in quick
 				k := idx
 				if !c.P.Thorough() {
-					k = idx*8 + int(uint64(c.P.Seed)%8)
+					k = idx*c01CtxDiv + int(uint64(c.P.Seed)%c01CtxDiv)
 				}
 				if k < gen.CtxBytesCount() {
 					src := gen.CtxBytes(k)
